@@ -28,6 +28,11 @@ def zip_pairs(t):
             if b[0] == 'call' and b[1].endswith('islice') and len(b[2]) == 3 and b[2][0] == a \
                     and b[2][1] == ('const', 1) and b[2][2] == T.NONE:
                 return a, t[2]
+    # the running form: previous = None; for x in X: if previous is not None: x.requires(previous); previous = x
+    if t[0] == 'prev' and t[1][0] == 'elem' and len(t[1]) == 3 and t[1][2][0] == 'for':
+        return t[1][1], 0
+    if t[0] == 'elem' and len(t) == 3 and t[2][0] == 'for':
+        return t[1], 1
     # the index form: for i in range(1, len(X)): X[i] ... X[i - 1]
     if t[0] == 'sub' and len(t) == 3:
         x, i = t[1], t[2]
@@ -399,7 +404,9 @@ def relation_writers(ctx, rep, rule):
             if g.qualname in allowed:
                 return True
             g = g.parent
-        if f.name.startswith('_') and not f.name.startswith('__') and f.qualname not in seen:
+        helper_cls = f.cls is not None and f.cls.name.startswith('_') and not f.name.startswith('__')
+        if (helper_cls or (f.name.startswith('_') and not f.name.startswith('__'))) and f.qualname not in seen:
+            # (a private helper, or a method of a private helper class)
             cs = callers.get(f.qualname, set())
             return bool(cs) and all(ok_func(p.funcs[c], seen + (f.qualname,)) for c in cs if c in p.funcs)
         return False
